@@ -25,6 +25,7 @@ type (
 		Params  []string
 		Body    Expr
 		Env     *Env
+		File    *File // the file whose definitions the body's global identifiers refer to (nil = the main file)
 	}
 	VBuiltin struct {
 		Name string
